@@ -48,6 +48,22 @@ CHECKS = {
  "C19": dict(design="4/C19", technique="fault injection enumerated over every destructor call of one destroying operation after a generated prefix; ledger + differential continuation",
    text="Fault enumeration inside exploration: for each generated (prefix, destroying op) all destructor calls of that op are made to panic in turn (capped at 24 per op); after catch_unwind no double destruction, no destroyed value readable, and a generated continuation + teardown behaves like the re-synchronised model.",
    note="one panic per run; which values survive is not asserted; leaks after a panic only counted"),
+
+ "C10": dict(design="4/C10", technique="schedule exploration: bounded-preemption exhaustive enumeration + generated random schedules under an owned baton scheduler (yield-point hooks), plus real-thread stress",
+   text="Exploration of schedules: the interleaving of the lock-free steps of Entities::create/create_iter/delete/is_alive/join and LazyUpdate calls is a generated input. 24 small programs are enumerated exhaustively up to 2 (quick) / 3 (thorough) preemptions; generated programs x generated decision sequences go deeper; end-state oracle after maintain.",
+   note="sequentially consistent interleavings at hook granularity only; hibitset add_atomic / crossbeam SegQueue are atomic steps; weak-memory behaviour only sampled by stress on x86"),
+ "C11": dict(design="4/C11", technique="property-based testing of generated system graphs under a reader/writer monitor + exhaustive borrow-state probe of SystemData declarations",
+   text="Exploration: generated system graphs (access vectors over six storages, dependencies, barriers, pool sizes 1-16) are dispatched with exact per-storage reader/writer counters; deterministic probe compares what fetch() really borrows with reads()/writes() for 19 SystemData types.",
+   note="the stage planner is shred's (trusted); run-time schedule sampled; systems use specs' own declarations and fetch"),
+ "C14": dict(design="4/C14", technique="round-trip property testing (serialize -> deserialize into a shifted world) with a marker-correspondence oracle and a record-shuffling metamorphic relation",
+   text="Exploration: generated worlds with arbitrary reference graphs, two marker implementations, JSON and RON, recursive and non-recursive serialisers; loaded world compared through the marker correspondence; JSON records shuffled.",
+   note="serde_json / ron trusted; non-recursive serialiser only given references to marked entities (documented domain)"),
+ "C15": dict(design="4/C15", technique="model-based property testing of mark/delete/maintain/save/load histories over two worlds",
+   text="Exploration: histories over two worlds with cross loads, repeated loads, stale allocator mappings and explicit ids above the counter; uniqueness of live marker ids and in-place update / create-only-unknown checked after every step.",
+   note="explicit ids are fresh; marker components never removed directly (outside the property's alphabet)"),
+ "C20": dict(design="4/C20", technique="differential property testing between runs: transcript of a generated history compared across two in-process worlds and a fresh process",
+   text="Exploration: full transcripts (handles, results, joins, events, serialised bytes) of generated single-threaded histories and save/load cases must be identical across two runs in one process and a run in a fresh process with different hash seeds and address layout.",
+   note="teardown destructor order and UuidMarker::new_random excluded by design"),
 }
 
 NOT_YET = {}
